@@ -82,3 +82,66 @@ R.contract(
     bounded_note="up to 2 probe results",
     replayable=False,
 )
+
+
+# ------------------------------------------------------------------------------------------------- the plan: the five phases, once each, in the fixed order; Engine.execute wires the stop event
+CORE_ = "schemathesis.engine.core:"
+R.nominal_methods["spec:SpecificationObj"] = {"supports_feature": lambda it, obj, a, k: Bool.make(it, it.path.fresh("supports:" + str(a[0].fields["name"])))}
+PhaseNames = EnumOf(PH + ":PhaseName")
+EngineObj = lambda: Obj(CORE_ + "Engine", schema=Obj("spec:PlannedSchema", specification=Obj("spec:SpecificationObj"), statistic=Obj("spec:Stat", links=Obj("spec:LinkStat", total=IntRange(0, None)))),
+                        config=Obj("spec:PlannedConfig", execution=Obj("spec:PlannedExecution", phases=Seq(Opq("enum:" + PH + ":PhaseName"), kind="list"), max_failures=NoneT), network=Obj("spec:PlannedNetwork", auth=NoneT)))
+R.contract(
+    CORE_ + "Engine.get_phase_config",
+    prop="C11",
+    args={"self": EngineObj(), "phase_name": PhaseNames, "is_supported": Bool, "requires_links": Bool},
+    raises=[],
+    ensures={
+        # a phase runs only if the schema supports it, the user enabled it and (stateful) there is at least one link; otherwise it says why not
+        "enabled_iff_supported_configured_and_applicable": "iff(result.is_enabled, is_supported and any(p is phase_name for p in self.config.execution.phases) and not (requires_links and self.schema.statistic.links.total == 0))",
+        "a_disabled_phase_says_why": "iff(result.skip_reason is None, result.is_enabled) and implies(not is_supported, reason_name(result) == 'NOT_SUPPORTED' and not result.is_supported)",
+        "it_is_the_phase_asked_for": "result.name is phase_name",
+    },
+    replayable=False,
+)
+R.contracts[CORE_ + "Engine.get_phase_config"].returns = lambda it, env: __import__("pyvc.values", fromlist=["VObj"]).VObj(it.resolve_class(PH + ":Phase"), {"name": env["phase_name"], "is_supported": True, "is_enabled": True, "skip_reason": None})
+R.contracts[CORE_ + "Engine.get_phase_config"].call_ensures = {}
+R.contracts[CORE_ + "Engine.get_phase_config"].requires_are_representation_invariant = True
+R.spec_funcs["reason_name"] = lambda it, phase: None if phase.fields["skip_reason"] is None else phase.fields["skip_reason"].fields["name"]
+R.contract(CORE_ + "ExecutionPlan", abstract_only=True, args={"phases": Opq("Any")}, returns=lambda it, env: __import__("pyvc.values", fromlist=["VObj"]).VObj(it.resolve_class("spec:Plan"), {"phases": env["phases"]}), note="dataclass constructor")
+R.contract(
+    CORE_ + "Engine._create_execution_plan",
+    prop="C11",
+    args={"self": EngineObj()},
+    raises=[],
+    ensures={
+        # "each phase is opened and closed exactly once in the fixed phase order": the plan lists every phase once, in that order (ExecutionPlan.execute opens and closes each listed phase once)
+        "all_phases_once_in_the_fixed_order": "[p.name.name for p in result.phases] == ['PROBING', 'EXAMPLES', 'COVERAGE', 'FUZZING', 'STATEFUL_TESTING']",
+    },
+    replayable=False,
+)
+R.extern["threading.Event"] = lambda it, a, k: it.ghost.__setitem__("stop_event", __import__("pyvc.values", fromlist=["VObj"]).VObj(it.resolve_class("threading:Event"), {"flag": False})) or it.ghost["stop_event"]
+R.contract("schemathesis.auths:unregister", args={}, returns=NoneT, trusted=True, effects={"unregistered": "True"}, note="drops a globally registered auth provider when --auth is given")
+R.contract("schemathesis.engine.context:EngineContext", abstract_only=True, args={},
+           returns=lambda it, env: it.ghost.__setitem__("ctx", __import__("pyvc.values", fromlist=["VObj"]).VObj(it.resolve_class("spec:BuiltCtx"), {
+               "schema": env["schema"], "config": env["config"], "control": __import__("pyvc.values", fromlist=["VObj"]).VObj(it.resolve_class("spec:BuiltControl"), {"stop_event": env["stop_event"]})})) or it.ghost["ctx"],
+           note="constructor: control = ExecutionControl(stop_event=stop_event, max_failures=config.execution.max_failures) (C12 contracts)")
+_cep = R.contracts[CORE_ + "Engine._create_execution_plan"]
+_cep.returns = lambda it, env: it.ghost.__setitem__("plan", __import__("pyvc.values", fromlist=["VObj"]).VObj(it.resolve_class("spec:PlanWithExecute"), {})) or it.ghost["plan"]
+_cep.call_ensures = {}
+_cep.requires_are_representation_invariant = True
+R.nominal_methods["spec:PlanWithExecute"] = {"execute": lambda it, obj, a, k: ("events-of", obj, a[0])}
+R.contract(CORE_ + "EventStream", abstract_only=True, args={"generator": Opq("Any"), "stop_event": Opq("Any")}, returns=lambda it, env: __import__("pyvc.values", fromlist=["VObj"]).VObj(it.resolve_class("spec:Stream"), {"generator": env.get("generator"), "stop_event": env.get("stop_event")}),
+           note="dataclass constructor")
+R.contract(
+    CORE_ + "Engine.execute",
+    prop="C11",
+    args={"self": EngineObj()},
+    ghost={"stop_event": None, "ctx": None, "plan": None, "unregistered": False},
+    raises=[],
+    ensures={
+        "the_stream_is_the_plans_event_stream_over_a_context_of_this_schema_and_config": "result.generator == ('events-of', ghost('plan'), ghost('ctx')) and ghost('ctx').schema is self.schema and ghost('ctx').config is self.config",
+        # C12: stopping the stream reaches the engine: the stream's stop event IS the control's stop event
+        "C12_stream_and_engine_share_the_stop_event": "result.stop_event is ghost('ctx').control.stop_event and result.stop_event is ghost('stop_event') and result.stop_event.flag is False",
+    },
+    replayable=False,
+)
